@@ -11,6 +11,22 @@ namespace PqModel.Merge
 
 abbrev NKey := Option Int
 
+/-- a bound of a row group in sort order: a rank, or the position of the nulls -/
+inductive Bound where
+  | nullsFirst
+  | val (v : Int)
+  | nullsLast
+deriving DecidableEq
+
+/-- `compare(a, b) < 0` of two bounds (nulls compare equal to each other) -/
+def Bound.lt : Bound → Bound → Bool
+  | .nullsFirst, .nullsFirst => false
+  | .nullsFirst, _ => true
+  | .val _, .nullsFirst => false
+  | .val a, .val b => decide (a < b)
+  | .val _, .nullsLast => true
+  | .nullsLast, _ => false
+
 /-- merge.go:256-291 with a single page: page min/max cover non-null values only; `none` = the
     "no valid pages" error -/
 def minMax : List NKey → Option (Int × Int)
@@ -21,40 +37,52 @@ def minMax : List NKey → Option (Int × Int)
     | none => some (v, v)
     | some (a, b) => some (min v a, max v b)
 
+/-- merge.go:216-315 `rowGroupRangeOfSortedColumns` for one sorting column and a single page.
+    `nullAware = false` is the code before the repair of F12 (bounds from non-null values only);
+    `nullAware = true` is the code as it is: when the column holds nulls the bound on the side of
+    the nulls is null. -/
+def rangeOfRows (nullAware nullsFirst : Bool) (rows : List NKey) : Option (Bound × Bound) :=
+  match minMax rows with
+  | none => none
+  | some (a, b) =>
+    if nullAware && rows.any Option.isNone then
+      if nullsFirst then some (.nullsFirst, .val b) else some (.val a, .nullsLast)
+    else some (.val a, .val b)
+
 structure RG where
   idx : Nat
-  lo : Int
-  hi : Int
+  lo : Bound
+  hi : Bound
   rows : Nat
 
 /-- insertion step of `slices.SortFunc` (insertion sort below 12 elements): `x` moves left past the
     elements that are strictly greater -/
 def insertRG (x : RG) : List RG → List RG
   | [] => [x]
-  | y :: ys => if x.lo < y.lo then x :: y :: ys else y :: insertRG x ys
+  | y :: ys => if x.lo.lt y.lo then x :: y :: ys else y :: insertRG x ys
 
 def sortRG (l : List RG) : List RG := l.foldl (fun acc x => insertRG x acc) []
 
 /-- merge.go:192-212 -/
-def sweep : List RG → List RG → Int → List (List RG)
+def sweep : List RG → List RG → Bound → List (List RG)
   | [], cur, _ => [cur.reverse]
   | r :: rs, cur, mx =>
-    if r.lo ≤ mx then sweep rs (r :: cur) (if mx < r.hi then r.hi else mx)
+    if !(mx.lt r.lo) then sweep rs (r :: cur) (if mx.lt r.hi then r.hi else mx)
     else cur.reverse :: sweep rs [r] r.hi
 
 /-- ranges of the non-empty row groups, `none` if some range is unavailable -/
-def rangesOf : List (List NKey) → Nat → Option (List RG)
+def rangesOf (nullAware nullsFirst : Bool) : List (List NKey) → Nat → Option (List RG)
   | [], _ => some []
   | rows :: rest, i =>
-    if rows.isEmpty then rangesOf rest (i + 1)
+    if rows.isEmpty then rangesOf nullAware nullsFirst rest (i + 1)
     else
-      match minMax rows, rangesOf rest (i + 1) with
+      match rangeOfRows nullAware nullsFirst rows, rangesOf nullAware nullsFirst rest (i + 1) with
       | some (a, b), some rs => some ({ idx := i, lo := a, hi := b, rows := rows.length } :: rs)
       | _, _ => none
 
 /-- merge.go:155-214: the segments, each a list of (input index, rows) -/
-def segmentsOf (inputs : List (List NKey)) : List (List (Nat × Nat)) :=
-  match rangesOf inputs 0 with
+def segmentsOf (nullAware nullsFirst : Bool) (inputs : List (List NKey)) : List (List (Nat × Nat)) :=
+  match rangesOf nullAware nullsFirst inputs 0 with
   | none => [(List.range inputs.length).map (fun i => (i, (inputs.getD i []).length))]
   | some [] => []
   | some [r] => [[(r.idx, r.rows)]]
